@@ -120,8 +120,11 @@ Root == 20
 Sq3 == { a * a + b * b + c * c : a, b, c \in 0..Root }
 Sq4 == { a * a + b * b + c * c + e * e : a, b, c, e \in 0..Root }
 SplitOK(n, delta) == IF n = 4 THEN delta \in Sq4                                   \* FourSquaresSplitter: any delta >= 0
-                              ELSE delta % 4 = 2 /\ delta <= TableLimit /\ delta \in Sq3   \* SquaresTable.Split (note N1: the bound is on the scaled value)
-InLimits(n, delta) == n = 3 => delta <= TableLimit
+                              ELSE delta % 4 = 2 /\ delta <= 4 * TableLimit + 2 /\ delta \in Sq3   \* SquaresTable.Split: delta is the SCALED value 4x + 2 of a
+                                                                                              \* difference x; the table is documented to hold "entries up-to and
+                                                                                              \* including limit", i.e. x <= TableLimit (fix of D46: the code used
+                                                                                              \* to apply the limit to the scaled value and served only a quarter)
+InLimits(n, delta) == n = 3 => delta <= 4 * TableLimit + 2
 
 M == 0..MMax
 Ks == (0 - KOff)..KMax
